@@ -29,8 +29,8 @@ CONSTANTS
   AckMode,        \* "any": reader may acknowledge any 0..since frames after consuming one (PROTOCOL.md MAY);
                   \* "shaped": acknowledge exactly when since >= thr (what the code does)
   ThrMode,        \* "fixed": thr = min(cfg.thr, own rwnd, peer rwnd);  "pinned": min(cfg.thr, peer rwnd) (pinned tree, F1)
-  RstMode,        \* "fixed": a stream dropped while the peer may still be sending is answered with Reset even if our
-                  \*   Finish was sent;  "pinned": Reset only if our Finish was not sent (pinned tree, F19)
+  RstMode,        \* "fixed": a stream dropped while the peer has sent data and not finished is answered with Reset even if
+                  \*   our Finish was sent;  "pinned": Reset only if our Finish was not sent (pinned tree, F19)
   EmptyMode       \* "fixed": zero-length writes send nothing, empty inbound Push is skipped by the reader;
                   \* "pinned": zero-length write sends an empty Push and the reader reports EOF (F2)
 
@@ -70,7 +70,7 @@ NewHandle(id, credit, thr, host, port, conn, role) ==
    since |-> 0, thr |-> thr, host |-> host, port |-> port, conn |-> conn, role |-> role,
    adv |-> credit, woff |-> 0, roff |-> 0, eof |-> "none", eofSeen |-> FALSE, finQ |-> FALSE,
    pshWire |-> 0, ackGot |-> 0, consumed |-> 0, ackSent |-> 0, wreg |-> FALSE, rreg |-> FALSE,
-   rdClosed |-> FALSE]
+   rdClosed |-> FALSE, gotPush |-> FALSE]
 
 NewCall(k, id, left, host, port, bt, cid) ==
   [k |-> k, id |-> id, left |-> left, host |-> host, port |-> port, bt |-> bt, cid |-> cid,
@@ -454,7 +454,7 @@ CloseLocal(s, e, id, sl, inhibit, cause) ==
                              !.hnd[e][sl.h].eof = IF x.eof = "none" /\ sl.rd THEN cause ELSE x.eof]
              (* the peer must be told unless the stream was closed in both directions: without a Reset its writer
                 would wait for Acknowledge frames that never come *)
-             tell == ~x.closedW \/ (RstMode = "fixed" /\ sl.rd)
+             tell == ~x.closedW \/ (RstMode = "fixed" /\ sl.rd /\ x.gotPush)
              s2 == IF tell /\ ~inhibit THEN Out(s1, e, MReset(id, x.conn)) ELSE s1
          IN Wake(s2, (IF x.wreg THEN {WakeW(e, sl.h)} ELSE {}) \cup (IF x.rreg /\ sl.rd THEN {WakeR(e, sl.h)} ELSE {}))
     [] sl.k = "Req" ->
@@ -566,12 +566,14 @@ ProcPush(s0, e, m) ==
   LET sl == SlotOf(s0, e, m.id)
       s  == MarkStale(s0, e, sl, m) IN
   IF sl.k = "Est" /\ sl.rd THEN
-    LET x == s.hnd[e][sl.h] IN
-    IF x.st = "dropped" \/ x.rdClosed THEN s                         \* TrySendError::Closed: silently ignored
+    LET x == s.hnd[e][sl.h]
+        (* the slot remembers that the peer has sent data: it may be waiting for an Acknowledge (see CloseLocal) *)
+        sp == [s EXCEPT !.hnd[e][sl.h].gotPush = TRUE] IN
+    IF x.st = "dropped" \/ x.rdClosed THEN sp                        \* TrySendError::Closed: silently ignored
     ELSE IF Len(x.inq) >= s.cfg[e].rwnd THEN                         \* TrySendError::Full
-      CloseFlow(IF s.healthy THEN Flag(s, "C03.Overrun") ELSE s, e, m.id, FALSE, "overrun")
-    ELSE Wake([s EXCEPT !.hnd[e][sl.h].inq = Append(@, [w |-> m.w, off |-> m.off, len |-> m.len]),
-                        !.hnd[e][sl.h].rreg = FALSE],
+      CloseFlow(IF s.healthy THEN Flag(sp, "C03.Overrun") ELSE sp, e, m.id, FALSE, "overrun")
+    ELSE Wake([sp EXCEPT !.hnd[e][sl.h].inq = Append(@, [w |-> m.w, off |-> m.off, len |-> m.len]),
+                         !.hnd[e][sl.h].rreg = FALSE],
               IF x.rreg THEN {WakeR(e, sl.h)} ELSE {})
   ELSE Out(s, e, MReset(m.id, m.g))
 
